@@ -6,7 +6,8 @@ CONSTANTS
  CrashSet = {FALSE}
  UploadSet = {TRUE}
  ModeSet = {"on"}
- TokenSet = {"absent", "fresh", "stale"}
+ TokenSet = {"absent", "fresh", "stale", "ghost"}
  LocalSet = {TRUE}
+ MaxFaults = 99
 INVARIANTS Conform AtMostOneAcquire
 CHECK_DEADLOCK TRUE
